@@ -2,6 +2,7 @@
 
 import argparse
 import logging
+import time
 
 from bardolph.lib import injection
 from bardolph.lib import job_control
@@ -70,6 +71,12 @@ def main():
     else:
         for file_name in args.file:
             jobs.add_job(ScriptJob.from_file(file_name))
+
+    # Each job starts the next one from its own thread, and (as of Python
+    # 3.12) no thread can be started once the main thread has ended: stay
+    # until the last queued job has run.
+    while jobs.has_jobs():
+        time.sleep(0.1)
 
 
 if __name__ == "__main__":
